@@ -102,6 +102,7 @@ impl W {
             Place::End => 1,
             Place::Start => 2,
             Place::Mid(_) => 4,
+            Place::Cross(_) => 8,
         };
         (o, buf)
     }
